@@ -4,6 +4,7 @@ CONSTANTS
   NoBlock = "none"
   NoTx = "none"
   VarBase = 128
+  PoolRefAhead = 30
   BeyondHeadStops = FALSE
   CheckHeads <- TraceCheckHeads
 INVARIANT T_ByNumberIsAncestor
